@@ -235,6 +235,7 @@ func (e *Engine) runPath(entry *ssa.Function, prefix []int) {
 	e.strLits = map[string]*Term{}
 	e.symOrder = false
 	e.bufText = nil
+	e.yamlNodes, e.yamlTypeErrs, e.tempFiles = nil, nil, nil
 	e.nextID = 0
 	e.solver.Reset()
 	completed := false
